@@ -465,3 +465,88 @@ Lemma skip_ext_resolution (runner : options) (groups : list (option options)) (b
   effective_skip_ext (resolve runner groups bench)
   = match first_some (precedence o_skip_ext_time runner groups bench) with Some b => b | None => false end.
 Proof. unfold effective_skip_ext. rewrite (resolve_proj o_skip_ext_time (fun a b => eq_refl)). reflexivity. Qed.
+
+(** * Decimal seconds *)
+
+Lemma digit_of_range (c d : N) : digit_of c = Some d -> d < 10 /\ c = d + 48.
+Proof.
+  unfold digit_of. destruct ((48 <=? c) && (c <=? 57)) eqn:E; [|discriminate].
+  intros H. injection H as <-. apply andb_true_iff in E. destruct E as [E1 E2].
+  apply N.leb_le in E1. apply N.leb_le in E2. lia.
+Qed.
+
+(** Positional value: appending a digit multiplies by ten and adds it. *)
+Lemma digits_val_acc_app (l : list N) : forall acc c,
+  digits_val_acc acc (l ++ [c]) =
+  match digits_val_acc acc l, digit_of c with
+  | Some v, Some d => Some (v * 10 + d)
+  | _, _ => None
+  end.
+Proof.
+  induction l as [|x l IH]; intros acc c; cbn [app digits_val_acc].
+  - destruct (digit_of c); reflexivity.
+  - destruct (digit_of x); [apply IH|reflexivity].
+Qed.
+
+Lemma digits_val_app_digit (l : list N) (c : N) :
+  digits_val (l ++ [c]) =
+  match digits_val l, digit_of c with
+  | Some v, Some d => Some (v * 10 + d)
+  | _, _ => None
+  end.
+Proof. apply digits_val_acc_app. Qed.
+
+(** The conversion is the exact decimal reading. *)
+Lemma decimal_nanos_exact (text : list N) (s n : N) :
+  decimal_nanos text = Some (s, n) ->
+  exists ip fp i f,
+    decimal_parts text = Some (ip, fp) /\ digits_val ip = Some i /\ digits_val fp = Some f /\
+    N.of_nat (length fp) <= 9 /\
+    n < 10 ^ 9 /\
+    s * 10 ^ 9 + n = i * 10 ^ 9 + f * 10 ^ (9 - N.of_nat (length fp)).
+Proof.
+  unfold decimal_nanos. destruct (decimal_parts text) as [[ip fp]|]; [|discriminate].
+  destruct (9 <? N.of_nat (length fp)) eqn:E9; [discriminate|].
+  destruct (digits_val ip) as [i|] eqn:Ei; [|discriminate].
+  destruct (digits_val fp) as [f|] eqn:Ef; [|discriminate].
+  intros H. injection H as <- <-.
+  exists ip, fp, i, f. apply N.ltb_ge in E9.
+  assert (Hnz : 10 ^ 9 <> 0) by (apply N.pow_nonzero; discriminate).
+  split; [reflexivity|]. split; [exact Ei|]. split; [exact Ef|]. split; [exact E9|].
+  split; [apply N.mod_lt; exact Hnz|].
+  rewrite N.mul_comm. symmetry. apply N.div_mod. exact Hnz.
+Qed.
+
+Lemma parse_seconds_sb_model (text : list N) : parse_seconds_sb text (decimal_nanos text) = true \/
+  (exists ip fp, decimal_parts text = Some (ip, fp) /\ 9 < N.of_nat (length fp)).
+Proof.
+  unfold parse_seconds_sb, decimal_nanos.
+  destruct (decimal_parts text) as [[ip fp]|]; [|left; reflexivity].
+  destruct (9 <? N.of_nat (length fp)) eqn:E9.
+  - right. exists ip, fp. split; [reflexivity|]. apply N.ltb_lt. exact E9.
+  - left. apply N.ltb_ge in E9.
+    destruct (digits_val ip) as [i|]; [|reflexivity].
+    destruct (digits_val fp) as [f|]; [|reflexivity].
+    set (k := N.of_nat (length fp)) in *.
+    set (total := i * 10 ^ 9 + f * 10 ^ (9 - k)).
+    assert (Hnz : 10 ^ 9 <> 0) by (apply N.pow_nonzero; discriminate).
+    apply andb_true_iff. split.
+    + apply N.ltb_lt. apply N.mod_lt. exact Hnz.
+    + apply N.eqb_eq.
+      replace (total / 10 ^ 9 * 10 ^ 9 + total mod 10 ^ 9) with total
+        by (rewrite (N.mul_comm (total / 10 ^ 9)); apply N.div_mod; exact Hnz).
+      unfold total. rewrite N.mul_add_distr_r.
+      rewrite <- (N.mul_assoc f), <- N.pow_add_r.
+      replace (9 - k + k) with 9 by lia.
+      rewrite N.mul_add_distr_r. rewrite <- !N.mul_assoc. rewrite (N.mul_comm (10 ^ 9) (10 ^ k)). reflexivity.
+Qed.
+
+Example decimal_nanos_examples :
+  decimal_nanos [48; 46; 48; 48; 48; 52] = Some (0, 400000)            (* "0.0004" *)
+  /\ decimal_nanos [49; 50; 46; 53] = Some (12, 500000000)             (* "12.5" *)
+  /\ decimal_nanos [46; 53] = Some (0, 500000000)                      (* ".5" *)
+  /\ decimal_nanos [51; 46] = Some (3, 0)                              (* "3." *)
+  /\ decimal_nanos [46] = None /\ decimal_nanos [] = None              (* ".", "" *)
+  /\ decimal_nanos [45; 49] = None                                     (* "-1" *)
+  /\ decimal_nanos [48; 46; 48; 48; 48; 48; 48; 48; 48; 48; 49] = Some (0, 1).   (* "0.000000001" *)
+Proof. repeat split; reflexivity. Qed.
